@@ -226,7 +226,9 @@ func UniqueScenarios() []Scenario {
 	uniqA := IndexSpec{Key: d("a", int32(1)), Unique: true, Expire: -1}
 	for _, vals := range [][2]interface{}{{int32(1), int64(1)}, {int32(1), float64(1)}, {nil, "missing"}, {bson.A{int32(1), int32(2)}, int32(2)},
 		{bson.A{int32(1), int32(2)}, bson.A{int32(2), int32(3)}}, {bson.A{}, bson.A{}}, {bson.A{}, nil}, {"x", "x"}, {d("b", int32(1)), d("b", int64(1))},
-		{int32(1), int32(2)}, {bson.A{int32(1)}, bson.A{bson.A{int32(1)}}}, {int32(0), float64(-0.0)}} {
+		{int32(1), int32(2)}, {bson.A{int32(1)}, bson.A{bson.A{int32(1)}}}, {int32(0), float64(-0.0)},
+		// beyond 2^53 a long and the neighbouring double are different keys; at 2^53 they are the same key
+		{int64(1<<53 + 1), float64(1 << 53)}, {int64(-(1 << 53) - 1), float64(-(1 << 53))}, {int64(1 << 53), float64(1 << 53)}, {int64(1<<62 + 1), float64(1 << 62)}} {
 		vals := vals
 		mk := func(id int32, v interface{}) bson.D {
 			if v == "missing" {
@@ -295,6 +297,25 @@ func UniqueScenarios() []Scenario {
 		return []Call{e.CreateIndex(sns, ix), e.InsertOne(sns, d("_id", int32(1), "a", bson.A{d("b", int32(1)), d("b", int32(2))})),
 			e.InsertOne(sns, d("_id", int32(2), "a", d("b", int64(2)))), e.InsertOne(sns, d("_id", int32(3), "a", d("b", bson.A{int32(3), int32(1)}))),
 			e.InsertOne(sns, d("_id", int32(4), "a", int32(1))), e.InsertOne(sns, d("_id", int32(5))), e.InsertOne(sns, d("_id", int32(6), "a", bson.A{d("b", int32(3))}))}
+	})
+	// positional updates into an array of sub-documents under a unique multikey index: a rejected update leaves
+	// no trace, an accepted one frees the old key
+	add("positional", func(e *Env) []Call {
+		ix := IndexSpec{Key: d("pets.name", int32(1)), Unique: true, Expire: -1}
+		pet := func(n string) bson.D { return d("name", n, "age", int32(1)) }
+		return []Call{e.CreateIndex(sns, ix),
+			e.InsertMany(sns, []bson.D{d("_id", int32(1), "pets", bson.A{pet("a"), pet("b")}), d("_id", int32(2), "pets", bson.A{pet("c")}), d("_id", int32(3), "pets", bson.A{})}, true),
+			e.Update(sns, false, d("_id", int32(1)), d("$set", d("pets.1.name", "c")), false, nil),  // collides with document 2
+			e.Update(sns, false, d("_id", int32(2)), d("$set", d("pets.0.name", "a")), false, nil),  // collides with document 1
+			e.Update(sns, false, d("_id", int32(1)), d("$set", d("pets.$[x].name", "c")), false, []bson.D{d("x.name", "b")}),
+			e.Update(sns, false, d("_id", int32(1)), d("$set", d("pets.1.name", "z")), false, nil),  // accepted: frees "b"
+			e.InsertOne(sns, d("_id", int32(4), "pets", bson.A{pet("b")})),                          // "b" is free now
+			e.InsertOne(sns, d("_id", int32(5), "pets", bson.A{pet("z")})),                          // "z" is taken
+			e.Update(sns, true, d(), d("$set", d("pets.$[].age", int32(2))), false, nil),
+			e.Update(sns, false, d("_id", int32(3)), d("$push", d("pets", pet("a"))), false, nil),   // collides
+			e.FindOneAndUpdate(sns, d("_id", int32(2)), d("$set", d("pets.0.name", "z")), nil, nil, false, true, nil),
+			e.Delete(sns, false, d("_id", int32(1))), e.InsertOne(sns, d("_id", int32(6), "pets", bson.A{pet("a"), pet("z")})),
+			e.Find(sns, d(), d("_id", int32(1)), nil, 0, 0)}
 	})
 	add("upsert-bulk", func(e *Env) []Call {
 		return []Call{e.CreateIndex(sns, uniqA), e.InsertOne(sns, d("_id", int32(1), "a", int32(1))),
